@@ -3,7 +3,7 @@ import importlib, io, itertools, os, shutil, tempfile, types, warnings
 import numpy
 import pandas
 from vf import core
-from contracts.nonshear_env import patched
+from contracts.nonshear_env import patched, duck_of
 
 LEVEL = "other"
 EXPLANATION = ("registry and writer paths of results_writer.py and the table call-sites of calculator.py decided by complete enumeration over "
@@ -157,11 +157,11 @@ def run(s):
                                 replay=native_table(cal, "tp"))
         # write_output: configured bases with configured variable lists, in order
         log = []
-        me = types.SimpleNamespace(config={"output": {"pressure_base": ["a", "b"], "volume_base": ["c"]}},
+        me = duck_of(cal.Calculator, config={"output": {"pressure_base": ["a", "b"], "volume_base": ["c"]}},
                                    pressure_base=types.SimpleNamespace(write_variables=lambda v: log.append(("tp", v))),
                                    volume_base=types.SimpleNamespace(write_variables=lambda v: log.append(("tv", v))))
         cal.Calculator.write_output(me)
-        me2 = types.SimpleNamespace(config={"output": {"volume_base": ["c"]}}, pressure_base=types.SimpleNamespace(write_variables=lambda v: log.append(("tp2", v))),
+        me2 = duck_of(cal.Calculator, config={"output": {"volume_base": ["c"]}}, pressure_base=types.SimpleNamespace(write_variables=lambda v: log.append(("tp2", v))),
                                     volume_base=types.SimpleNamespace(write_variables=lambda v: log.append(("tv2", v))))
         cal.Calculator.write_output(me2)
         if log != [("tp", ["a", "b"]), ("tv", ["c"]), ("tv2", ["c"])]:
